@@ -22,7 +22,13 @@ import (
 )
 
 func init() {
-	core.Register(core.Check{ID: "C02", Level: "exploration", Run: func(c *core.Ctx) { runC02(c); historyPass(c, "C02"); reentrancyPass(c, "C02"); arch386Pass(c, "C02") }})
+	core.Register(core.Check{ID: "C02", Level: "exploration", Run: func(c *core.Ctx) {
+		waitArch := background(func() { arch386Pass(c, "C02") })
+		runC02(c)
+		historyPass(c, "C02")
+		reentrancyPass(c, "C02")
+		waitArch()
+	}})
 }
 
 // ---------- (c) toy curve: validity decided by a byte predicate, 3 of 4 candidates rejected ----------
